@@ -31,6 +31,23 @@ class DictItems:
         self.d, self.what = d, what
 
 
+class LoopCarried(Exception):
+    def __init__(self, name, value):
+        self.name, self.value = name, value
+
+
+def havoc_like(ex, name, v):
+    if isinstance(v, bool):
+        return SymVal('bool', z3.Bool(ex.fresh_name(f'havoc({name})')))
+    if isinstance(v, int) or (isinstance(v, SymVal) and v.sort == 'int'):
+        return SymVal('int', z3.Int(ex.fresh_name(f'havoc({name})')))
+    if isinstance(v, str) or (isinstance(v, SymVal) and v.sort == 'str'):
+        return SymVal('str', z3.String(ex.fresh_name(f'havoc({name})')))
+    if isinstance(v, SymVal) and v.sort == 'bool':
+        return SymVal('bool', z3.Bool(ex.fresh_name(f'havoc({name})')))
+    return None
+
+
 class CompOverSym(Exception):
     def __init__(self, it, gen):
         self.it, self.gen = it, gen
@@ -101,7 +118,7 @@ def outer_containers(env):
     return out
 
 
-def probe_body(ex, run_body, env, it):
+def probe_body(ex, run_body, env, it, havoc_ok=()):
     """explore all paths of one iteration. returns list[BodyPath]"""
     saved_trace, saved_pos = ex.trace, ex.pos
     saved_probe, saved_pp = ex.in_summary_probe, ex.probe_pending
@@ -131,6 +148,18 @@ def probe_body(ex, run_body, env, it):
                 raise Unsupported('return inside a summarised loop')
             except SymRaise as e:
                 bp.raised = e
+            except Infeasible:
+                bp = None
+            if bp is None:
+                while len(ex.undo) > mark_undo:
+                    ex.undo.pop()()
+                del ex.log[mark_log:]
+                del ex.writes[mark_w:]
+                del ex.pc[mark_pc:]
+                del ex.choices[mark_ch:]
+                env.vars.clear()
+                env.vars.update(saved_vars)
+                continue
             bp.choices = ex.choices[mark_ch:]
             bp.events = ex.log[mark_log:]
             for cid, (c, old, name, _) in conts.items():
@@ -164,8 +193,8 @@ def probe_body(ex, run_body, env, it):
                     raise Unsupported(f'loop body mutates outer container ({attr})')
             # loop-carried names
             for name, v in env.vars.items():
-                if name in saved_vars and saved_vars[name] is not v and not _same(saved_vars[name], v):
-                    raise Unsupported(f'loop-carried variable {name} (needs an invariant)')
+                if name in saved_vars and saved_vars[name] is not v and not _same(saved_vars[name], v) and name not in havoc_ok:
+                    raise LoopCarried(name, saved_vars[name])
             bp.local_names = [k for k in env.vars if k not in saved_vars]
             paths.append(bp)
             # roll back
@@ -225,7 +254,7 @@ def apply_summary(ex, it, paths, conts, env, node):
         c, old, name, _ = conts[cid]
         if isinstance(c, list):
             per_path = [(p.choices, p.appends.get(cid, [])) for p in normal]
-            new = SymSeq(ex.fresh_name(f'{name}<-{seq.label}'), None, prov='fresh', mapped=(seq, per_path))
+            new = SymSeq(ex.fresh_name(f'{name}<-{seq.label}'), _mapped_factory(per_path, old), prov='fresh', mapped=(seq, per_path))
             new.prefix = list(old)
             if all(len(a) == 1 for _, a in per_path):
                 new.len = seq.len + len(old)
@@ -249,6 +278,29 @@ def apply_summary(ex, it, paths, conts, env, node):
             if nme not in env.vars:
                 env.vars[nme] = Poison(nme)
     return normal
+
+
+def _mapped_factory(per_path, old=()):
+    """element factory of a summarised accumulator when all appended values are scalars of one sort (over-approximation:
+    an element is an arbitrary value of that sort)"""
+    sorts = set()
+    for _, vals in per_path:
+        for v in vals:
+            if isinstance(v, SymVal):
+                sorts.add(v.sort)
+            elif isinstance(v, bool):
+                sorts.add('bool')
+            elif isinstance(v, int):
+                sorts.add('int')
+            elif isinstance(v, str):
+                sorts.add('str')
+            else:
+                return None
+    if len(sorts) != 1:
+        return None
+    so = sorts.pop()
+    mk = {'int': z3.Int, 'str': z3.String, 'bool': z3.Bool}[so]
+    return lambda ex, label: SymVal(so, mk(ex.fresh_name(label)))
 
 
 def rebind(ex, env, old, new):
@@ -286,8 +338,24 @@ def summarise_for(ex, st, it, env):
         def run_body(elem):
             ex.assign(st.target, elem, env)
             ex.exec_block(st.body, env)
-        paths, conts = probe_body(ex, run_body, env, it)
+        havoc = {}
+        while True:
+            try:
+                paths, conts = probe_body(ex, run_body, env, it, havoc_ok=set(havoc))
+                break
+            except LoopCarried as lc:
+                # sound over-approximation: a scalar modified by the loop takes an arbitrary value of its sort at the
+                # head of every iteration and after the loop (enough for exception contracts; no invariant is claimed)
+                hv = havoc_like(ex, lc.name, lc.value)
+                if hv is None or len(havoc) > 8:
+                    raise Unsupported(f'loop-carried variable {lc.name} (needs an invariant)')
+                havoc[lc.name] = lc.value
+                env.vars[lc.name] = hv
         apply_summary(ex, it, paths, conts, env, st)
+        for name, v0 in havoc.items():
+            env.vars[name] = havoc_like(ex, name, v0)
+        if havoc:
+            ex.havocked = getattr(ex, 'havocked', set()) | set(havoc)
     concrete_iter(suf)
     ex.exec_block(st.orelse, env)
 
@@ -321,9 +389,7 @@ _SKIP = object()
 # ------------------------------------------------------------------------------- sequence operations
 def seq_getitem(ex, seq, idx, node):
     if isinstance(idx, slice):
-        if idx.step is not None or isinstance(idx.start, SymVal) or isinstance(idx.stop, SymVal):
-            raise Unsupported('slice of symbolic sequence')
-        if idx.stop is None and (idx.start or 0) >= 0 and not getattr(seq, 'prefix', None):
+        if idx.stop is None and not isinstance(idx.start, SymVal) and (idx.start or 0) >= 0 and not getattr(seq, 'prefix', None):
             lo = idx.start or 0
             if lo == 0:
                 return copy_seq(ex, seq)
@@ -331,6 +397,12 @@ def seq_getitem(ex, seq, idx, node):
             new.len = z3.If(seq.len > lo, seq.len - lo, 0)
             new.slice_of = (seq, lo)
             new.suffix = list(seq.suffix)
+            return new
+        if idx.step is None and seq.elem_factory is not None and all(not isinstance(x, (SymObj, SymSeq)) for x in (getattr(seq, 'prefix', None) or []) + seq.suffix):
+            # arbitrary slice: unknown length >= 0, elements drawn from the same element description (over-approximation)
+            new = SymSeq(ex.fresh_name(f'{seq.label}[a:b]'), seq.elem_factory, prov='fresh', kind=seq.kind)
+            ex.assume(new.len >= 0)
+            new.slice_of = (seq, idx)
             return new
         raise Unsupported('slice of symbolic sequence')
     if isinstance(idx, SymVal):
